@@ -40,7 +40,7 @@ rules = [
  (r'vote\.go:deserializeVote(Ex|List)?:', 'stored "written by serializeVote/serializeVoteEx/serializeVoteList of the same file; read by every vote/unstake the harness executes"'),
  (r'staking\.go:deserializeStaking', 'stored "written by serializeStaking; read by every system transaction the harness executes"'),
  (r'name\.go:deserializeNameMap', 'stored "written by serializeNameMap (version 1, two length-prefixed fields); absent key = nil; read for every name sender/recipient the harness resolves"'),
- (r'config\.go:deserializeConf:index', 'stored "written by serializeConf (first byte = on flag); nil data is tested before"'),
+ (r'config\.go:deserializeConf:index', 'trap [cDeser0]'),
  # library contracts
  (r'DecodeAddressBytes', 'lib "base58check.Decode returns at least the version byte or an error (checked in the library source)"'),
  (r'deserializeConf:slice:strings\.Split', 'lib "strings.Split returns at least one element"'),
